@@ -3,7 +3,7 @@
  - twice in a row, - at two worker counts, - under two PYTHONHASHSEED values, each in a fresh interpreter.
 
 usage: ./selftest.py determinism [props...] [--runs N]
-Writes out/selftest-determinism.json and prints one line per property; exit 1 on any divergence.
+Writes selftest-determinism.json (committed; merged per property) and prints one line per property; exit 1 on any divergence.
 """
 import json
 import os
@@ -34,7 +34,12 @@ def main():
     runs_override = None
     if '--runs' in args:
         runs_override = int(args[args.index('--runs') + 1])
-    report = {}
+    rp = os.path.join(HERE, 'selftest-determinism.json')
+    try:
+        with open(rp) as f:
+            report = json.load(f)
+    except (OSError, ValueError):
+        report = {}
     bad = 0
     for prop in props:
         runs = runs_override or RUNS[prop]
@@ -54,8 +59,8 @@ def main():
             bad += 1
         print('%s %s: %d runs x %d executions (jobs 16/16/3/16/5, PYTHONHASHSEED 0/0/0/12345/987) %s' % (prop, status, len(ref), len(configs), diffs or ''))
         sys.stdout.flush()
-    with open(os.path.join(HERE, 'out', 'selftest-determinism.json'), 'w') as f:
-        json.dump(report, f, indent=1)
+        with open(rp, 'w') as f:
+            json.dump(report, f, indent=1)
     return 1 if bad else 0
 
 if __name__ == '__main__':
